@@ -29,7 +29,8 @@ EXPLANATION = ("R1: every array-indexed copy of the BLAKE3 round function is eva
                "out[j].lane[k] = word j of input k's block; XNc blake3_xof4/8/16_avx512 whole function; HNc the six C hashN kernels as "
                "three straight-line regions (before the block loop, loop body at a representative index, after the loop). "
                "HNr: the Rust hash4/hash8 kernels likewise as three MIR regions. "
-               "Residual: the NEON and wasm32 kernels (not compiled on this target) and the MSVC .asm flavour (cannot be assembled here).")
+               "The NEON C kernel (parsed for aarch64) goes through R1c/K4c/K5c/F8c/STc/TPc/HNc as well; the crate is type-checked for aarch64 (config neon1, thorough). "
+               "Residual: the wasm32 SIMD kernel (no wasm32 target here) and the MSVC .asm flavour (cannot be assembled here).")
 TRUSTED = ["rustc nightly MIR; clang JSON AST", "clang -c + llvm-objdump disassembly and engines/asmabi/asmsym.py instruction semantics (about 100 mnemonics, lane-exact; unknown forms fail closed)", "engines/rules/symexec.py term normal form", "engines/specmodel/blake3_spec.py G network",
            "vendor intrinsics _mm*_add_epi32 / xor / or / srli / slli / ror are lane-wise 32-bit operations"]
 ASSUMPTIONS = ["uint8_t / bool register arguments arrive zero-extended (as every mainstream compiler passes them; the sse2/sse41 kernels rely on it)", "stores through `out` do not alias the inputs read later in the same region"]
@@ -44,8 +45,8 @@ def run(ctx):
     ctx.run_rule("R1r", r_round.rule_R1_refimpl, ["refimpl"])
     import r_asm
     import r_ffi
-    ctx.prefetch(["asm-full", "intr-full"] if ctx.tier == "thorough" else ["asm-full"])
-    ctx.run_rule("M2", r_ffi.rule_M2, ["asm-full"] + (["intr-full"] if ctx.tier == "thorough" else []))
+    ctx.prefetch(["asm-full", "intr-full", "neon1"] if ctx.tier == "thorough" else ["asm-full"])
+    ctx.run_rule("M2", r_ffi.rule_M2, ["asm-full"] + (["intr-full", "neon1"] if ctx.tier == "thorough" else []))
     ctx.run_rule("M3", r_ffi.rule_M3, ["pure-full"])
     ctx.run_rule("A9", r_asm.rule_A9)
     import r_asmsym
